@@ -119,11 +119,14 @@ type Interp struct {
 	Now    int64
 	Checks []Checker
 	Want   string
-	fprop  string
-	f      *pbt.Failure
-	Accts  map[string]sdk.AccAddress
-	Stats  map[string]int
-	StepNo int
+	// Lenient: failures of checkers that belong to another property do not end the history (Foreign names the first)
+	Lenient bool
+	Foreign string
+	fprop   string
+	f       *pbt.Failure
+	Accts   map[string]sdk.AccAddress
+	Stats   map[string]int
+	StepNo  int
 	// AppliedEvents counts external events applied by the hub per chain.
 	TxHashes []string
 	NoHash   bool
@@ -139,6 +142,13 @@ func (it *Interp) preSnap() *Snap {
 
 func (it *Interp) Fail(prop, key, format string, a ...interface{}) {
 	if it.fprop != "" {
+		return
+	}
+	if it.Lenient && prop != it.Want && prop != "C05" && prop != "harness" {
+		// an auxiliary checker of another property: noted, the wanted property keeps judging the history
+		if it.Foreign == "" {
+			it.Foreign = prop + "/" + key
+		}
 		return
 	}
 	it.fprop = prop
@@ -857,6 +867,24 @@ func (it *Interp) step(i int, op *Op) {
 		it.step(i, &Op{K: "exec", C: op.C, R: op.R, A: op.A})
 		if !it.Failed() {
 			it.step(i, &Op{K: "block", T: op.T})
+		}
+
+	case "xround":
+		// macro: several accounts of chain C send to another external chain (fees differ), the transfers are
+		// applied, batched there, executed at a low reported cost and the execution is observed
+		dst := (op.C%len(ExtChains) + 1 + op.C2%2) % len(ExtChains)
+		fee := bigOf(op.F)
+		for j := 0; j < op.N && !it.Failed(); j++ {
+			f := new(big.Int).Mul(fee, big.NewInt(int64(1+j%3)))
+			it.step(i, &Op{K: "transfer", C: op.C, D: op.D, A: op.A, F: f.String(), C2: dst, R: op.R + j})
+		}
+		paid := []string{"1", op.F, new(big.Int).Mul(fee, big.NewInt(1000)).String()}[op.U%3]
+		for _, o := range []Op{{K: "block", T: op.T}, {K: "reqbatch", C: dst, D: op.D}, {K: "block", T: op.T}, {K: "exec", C: dst, A: paid}, {K: "block", T: op.T}} {
+			if it.Failed() {
+				break
+			}
+			o := o
+			it.step(i, &o)
 		}
 
 	case "xtick":
